@@ -22,7 +22,7 @@ ASSUMPTIONS = ["isomorphism by brute force over permutations (n<=7) / networkx V
                "explorers are called with node labels 0..n-1 in order (what every caller passes)",
                "lc_orbit_finder(rep_allowed=True) is only generated with a size threshold or depth (it never terminates otherwise)"]
 REQUIRED_CLASSES = {"iso": ["symmetric", "label_map", "sort_emit", "n>=8", "n_iso>found"],
-                    "orbit": ["with_iso", "rand", "rep_allowed", "out>=3"]}
+                    "orbit": ["with_iso", "rand", "rep_allowed", "out>=3", "linear_even_n>=8"]}
 
 
 def _adj(h, n):
@@ -178,6 +178,8 @@ def check_orbit(case, sub="orbit"):
                   rand=case.get("rand", False), rep_allowed=case.get("rep", False))
         if kw["rep_allowed"] and kw["comp_depth"] is None and kw["orbit_size_thresh"] is None:
             kw["orbit_size_thresh"] = 6
+        if kw["with_iso"] and kw["comp_depth"] is None and kw["orbit_size_thresh"] is None and n >= 6:
+            kw["orbit_size_thresh"] = 40  # the unbounded walk with isomorphs takes ~30 s per 6-vertex graph
         for k in ("with_iso", "rand"):
             if kw[k]:
                 cl.append(k)
@@ -195,7 +197,10 @@ def check_orbit(case, sub="orbit"):
         out = guarded(sub, icls, rm.rgs_orbit_finder, g)
     elif method == "linear_partial_orbit":
         out = guarded(sub, icls, rm.linear_partial_orbit, g)
-        first_is_input = False
+        # documented: "a list of distinct graphs in the orbit ... The first graph in the list is the original graph state"
+        distinct_adj = True
+        if n % 2 == 0 and n >= 8:
+            cl.append("linear_even_n>=8")
     elif method == "depth_first_orbit":
         out = guarded(sub, icls, rm.depth_first_orbit, g)
         first_is_input = False
@@ -289,7 +294,7 @@ def strat_orbit(tier):
         "with_iso": st.booleans(), "rand": st.booleans(), "rep": st.booleans(), "seed": st.integers(0, 10**6),
     })).map(lambda t: dict(t[0], method="lc_orbit_finder", **t[1]))
     rgs = st.integers(2, 3).map(lambda k: dict(zip(("n", "mask"), repeater_mask(k)), method="rgs_orbit_finder"))
-    lin = st.integers(3, 7).map(lambda n: {"n": n, "mask": gg.named(n, "path"), "method": "linear_partial_orbit"})
+    lin = st.integers(3, 10).map(lambda n: {"n": n, "mask": gg.named(n, "path"), "method": "linear_partial_orbit"})
     dfs = gg.st_graph(2, 5, connected=True).map(lambda g: dict(g, method="depth_first_orbit"))
     return st.one_of(lc, lc, lc, rgs, lin, dfs)
 
